@@ -356,15 +356,24 @@ class CoopEvent:
 class CoopSemaphore:
     def __init__(self, value: int = 1) -> None:
         self.value = value
+        self._timed_out: set[int] = set()  # threads whose previous timed acquire just timed out
 
     def can_proceed(self, tid: int) -> bool:
         return self.value > 0
 
     def co_acquire(self, blocking: bool = True, timeout: float | None = None):  # generator
+        # A timed acquire may time out at once (any timing of the timeout) -- but only once in a row
+        # per thread: a retry loop around it would otherwise spin for ever in a model without time.
+        # The second consecutive timed acquire of the same thread waits like a blocking one.
+        me = sched().current if _ACTIVE else -1
         while self.value <= 0:
-            if not blocking or timeout is not None:
+            if not blocking:
+                return False
+            if timeout is not None and me not in self._timed_out:
+                self._timed_out.add(me)
                 return False
             yield ("blocked", self)
+        self._timed_out.discard(me)
         self.value -= 1
         return True
 
